@@ -6,4 +6,7 @@ python3-vt -c "import z3, sys; assert z3.get_version_string().startswith('5.'), 
 command -v z3-new >/dev/null
 /venv/bin/python -c "import numpy, scipy"
 mkdir -p evidence replays
+# lemma library: Lean 4 + Mathlib re-check of the counting/summation lemmas handed to the SMT solver as axioms
+# (cold start of `import Mathlib` takes a few minutes); writes lemmas/CHECKED.json
+sh tools/build_lemmas.sh >/dev/null 2>&1 && echo lemmas-checked || echo 'lemmas NOT re-checked (lean unavailable?): the checks then list the lemma library as unchecked'
 echo setup-ok
